@@ -18,6 +18,7 @@ import GoblVerif.Proofs.CalcGroups
 import GoblVerif.Proofs.CalcSummary
 import GoblVerif.Generated.TaxTotalsSrc
 import GoblVerif.Proofs.TaxTotalsSrc
+import GoblVerif.Proofs.TaxTotalsCalc
 
 namespace GoblVerif.Props.C02
 open GoblVerif GoblVerif.Calc GoblVerif.Spec.C02
@@ -308,11 +309,17 @@ encoding).  The `num` calls are the fields of `TaxTotals.NumOps`, read here with
 
 Proved for all arguments: `matches` (the rate-group key), `newRateTotal`,
 `newCategoryTotal`, `matchRoundingPrecision`, `PreciseAmount`, `PreciseSum`,
-`Category`.  Translated and pinned (`translated_as_listed` in Props/C20), but
-NOT yet related to `addToCats` / `catAmounts` / `finalSum` / `roundTax`:
-`rateTotalFor`, `calculateBaseCategoryTotal`, `calculateFinalSum`, `round`
-(write-back loops over two list levels); their shape pins in `ExpectCalc` stay,
-and so do the pins of the functions proved here (they are weaker, and cheap). -/
+`Category`, and — through the loop principles of Proofs/TaxTotalsSrc.lean and the
+bridge Proofs/TaxTotalsCalc.lean — `rateTotalFor` (with the base accumulation on
+the row it returns = `addToCats`), `calculateBaseCategoryTotal` (= `catAmounts`),
+`calculateFinalSum` (= `finalSum` over the categories with their amounts),
+`round` (= `roundTax`), for summaries of any shape and ANY rounding primitives.
+`src_partition_by_key` restates the headline theorem over the regenerated
+`rateTotalFor`.  Not translated (they stay on their shape pins in `ExpectCalc`):
+`TotalCalculator.Calculate`, `prepareLines`, `removeIncludedTaxes`, and the two
+loops of `calculateBaseRateTotals` themselves (`srcBaseRateTotals` spells them
+out by hand around the regenerated `rateTotalFor`).  The pins of the functions
+proved here stay too (they are weaker, and cheap). -/
 namespace Src
 open GoblVerif.Generated GoblVerif.TaxTotals GoblVerif.Proofs.TaxTotalsSrc
 
@@ -386,6 +393,107 @@ theorem src_PreciseSum (o : Ops) (enc : List (String × String) → String) (t :
 /-- **the regenerated `Total.Category`** returns the first category with the code -/
 theorem src_Category (t : Merge.Total) (code : String) :
     TaxTotalsSrc.Total_Category t code = t.categories.find? (fun ct => ct.code == code) := category_eq t code
+
+/-! ### the four functions with write-back loops, for summaries of any shape -/
+
+/-- **the regenerated `calculateBaseCategoryTotal` is `catAmounts`**: every rate group's amount and
+    surcharge amount, the category amount and the category surcharge, for any number of rate groups
+    (the receiver `t` is not used by the Go function) -/
+theorem src_calculateBaseCategoryTotal (o : Ops) (enc : List (String × String) → String)
+    (t : Merge.Total) (ct : Merge.CategoryTotal) (c : ℕ) (rr : String) :
+    toCalcCat enc (@TaxTotalsSrc.Total_calculateBaseCategoryTotal (calcOps o) t ct ⟨0, c⟩ rr).2 =
+      catAmounts o (ruleOf rr) c (toCalcCat enc ct) := by
+  rw [@calcBase_eq (calcOps o)]; exact catAmounts_calc o enc c rr ct
+
+/-- **the regenerated `calculateFinalSum`**: every category gets its amounts (`catAmounts`), the sum
+    is `finalSum` of these categories, the precise sum is left alone -/
+theorem src_calculateFinalSum (o : Ops) (enc : List (String × String) → String) (t : Merge.Total) (c : ℕ) (rr : String) :
+    toCalcTotal enc (@TaxTotalsSrc.Total_calculateFinalSum (calcOps o) t ⟨0, c⟩ rr).2 =
+      { cats := (t.categories.map (toCalcCat enc)).map (catAmounts o (ruleOf rr) c),
+        sum := finalSum o (ruleOf rr) c ((t.categories.map (toCalcCat enc)).map (catAmounts o (ruleOf rr) c)),
+        preciseSum := t.sumP } := by
+  rw [@calcFinalSum_eq (calcOps o)]
+  have hm : (t.categories.map (@calcCatG (calcOps o) ⟨0, c⟩ rr)).map (toCalcCat enc) =
+      (t.categories.map (toCalcCat enc)).map (catAmounts o (ruleOf rr) c) := by
+    simp only [List.map_map]
+    apply List.map_congr_left; intro ct _; exact catAmounts_calc o enc c rr ct
+  simp only [toCalcTotal, hm, finalSum_calc o enc]
+
+/-- **the regenerated `round` is `roundTax`**: every amount of every rate group and category is
+    rescaled to the currency's exponent, the precise amounts and the precise sum are kept -/
+theorem src_round (o : Ops) (enc : List (String × String) → String) (t : Merge.Total) (zero : Amount) :
+    toCalcTotal enc (@TaxTotalsSrc.Total_round (calcOps o) t zero).2 =
+      roundTax o zero.exp (t.categories.map (toCalcCat enc)) t.sum := by
+  rw [@round_eq (calcOps o)]; exact round_calc o enc t zero.exp
+
+/-- **`calculateFinalSum` then `round`** (the body of `Total.Calculate`) **is the last line of
+    `taxTotal`**: `roundTax` of the categories with their amounts and of their `finalSum` -/
+theorem src_Calculate_body (o : Ops) (enc : List (String × String) → String) (t : Merge.Total) (c : ℕ) (rr : String) :
+    toCalcTotal enc (@TaxTotalsSrc.Total_round (calcOps o)
+        (@TaxTotalsSrc.Total_calculateFinalSum (calcOps o) t ⟨0, c⟩ rr).2 ⟨0, c⟩).2 =
+      roundTax o c ((t.categories.map (toCalcCat enc)).map (catAmounts o (ruleOf rr) c))
+        (finalSum o (ruleOf rr) c ((t.categories.map (toCalcCat enc)).map (catAmounts o (ruleOf rr) c))) :=
+  Calculate_body_calc o enc t c rr
+
+/-- **the regenerated `rateTotalFor`**, for any summary, combo and rounding primitives, under an
+    injective encoding of the extension maps:
+    (1) it returns a non-nil row and leaves the sums alone;
+    (2) the row is the first one that `matches` the combo in the first category with the combo's
+        code of the summary AFTERWARDS (`findRow`: where the returned pointer points);
+    (3) writing the base accumulation of `calculateBaseRateTotals` through that pointer (`updCats`,
+        which writes at the place `findRow` reads) gives `addToCats` of the summary BEFORE. -/
+theorem src_rateTotalFor (o : Ops) (enc : List (String × String) → String) (henc : ∀ a b, enc a = enc b → a = b)
+    (r : Rule) (c : ℕ) (t : Merge.Total) (cb : TaxTotals.Combo) (tot : Amount) :
+    ∃ row t', @TaxTotalsSrc.Total_rateTotalFor (calcOps o) t cb ⟨0, c⟩ = (some row, t') ∧
+      t'.sum = t.sum ∧ t'.sumP = t.sumP ∧
+      @findRow (calcOps o) cb t'.categories = some row ∧
+      (@updCats (calcOps o) cb (accBase o r tot) t'.categories).map (toCalcCat enc) =
+        addToCats o r c (toCalcCombo enc cb) tot (t.categories.map (toCalcCat enc)) :=
+  ⟨_, _, @rateTotalFor_eq (calcOps o) t cb ⟨0, c⟩, rfl, rfl, findRow_locCats o enc henc cb _ _,
+    updCats_calc o enc henc r c cb tot t.categories⟩
+
+/-- the hypothesis on the encoding is satisfiable -/
+example : ∃ enc : List (String × String) → String, ∀ a b, enc a = enc b → a = b := exists_enc
+
+/-- **both loops of `calculateBaseRateTotals` around the regenerated `rateTotalFor` are
+    `baseRateTotals`** (`srcBaseRateTotals`: for every row and every combo, `rateTotalFor`, then the
+    base accumulation written through the returned pointer), from the empty summary -/
+theorem src_baseRateTotals (o : Ops) (enc : List (String × String) → String) (henc : ∀ a b, enc a = enc b → a = b)
+    (r : Rule) (c : ℕ) (rows : List (Amount × List TaxTotals.Combo)) (s sp : Amount) :
+    (srcBaseRateTotals o r c rows ⟨[], s, sp⟩).categories.map (toCalcCat enc) =
+      baseRateTotals o r c (rows.map (toCalcRow enc)) :=
+  srcBaseRateTotals_calc o enc henc r c rows ⟨[], s, sp⟩
+
+/-! ### the headline theorem, stated over the regenerated `rateTotalFor` -/
+
+/-- **partition by key, over the source**: in the summary that the two loops of
+    `calculateBaseRateTotals` build with the regenerated `rateTotalFor`, the base of the group with
+    key `k` in category `cat` is exactly the sum of the contributions of the combos with that
+    category and that key — every combo of every row is counted in the one group with its key and in
+    no other (any rows, any rule; exact arithmetic as in `partition_by_key`) -/
+theorem src_partition_by_key (enc : List (String × String) → String) (henc : ∀ a b, enc a = enc b → a = b)
+    (r : Rule) (c : ℕ) (cat : String) (k : Key) (rows : List (Amount × List TaxTotals.Combo)) (s sp : Amount) :
+    catGroupBase cat k ((srcBaseRateTotals exactOps r c rows ⟨[], s, sp⟩).categories.map (toCalcCat enc)) =
+      ((rows.map (toCalcRow enc)).map (rowGroupContrib r c cat k)).sum := by
+  rw [src_baseRateTotals exactOps enc henc]; exact partition_by_key r c cat k _
+
+/-- one step: a combo is counted in its own group and in no other (over the regenerated `rateTotalFor`) -/
+theorem src_one_combo_one_group (enc : List (String × String) → String) (henc : ∀ a b, enc a = enc b → a = b)
+    (r : Rule) (c : ℕ) (t : Merge.Total) (cb : TaxTotals.Combo) (tot : Amount) (cat : String) (k : Key)
+    (hok : CatsOk r c (t.categories.map (toCalcCat enc))) :
+    catGroupBase cat k ((srcStep exactOps r c t cb tot).categories.map (toCalcCat enc)) =
+      catGroupBase cat k (t.categories.map (toCalcCat enc)) +
+        (if (toCalcCombo enc cb).cat == cat ∧ comboKey (toCalcCombo enc cb) = k then contrib r c tot else 0) := by
+  rw [srcStep_calc exactOps enc henc]; exact addToCats_group r c _ tot cat k _ hok
+
+/-- non-vacuity: two rows, 21% with surcharge written `21%` / `21.0%`, and an exempt combo: the
+    regenerated `rateTotalFor` puts the two spellings into one group -/
+example : ((srcBaseRateTotals exactOps .precise 2
+      [(⟨10000, 4⟩, [sampleCB]), (⟨5000, 4⟩, [{ sampleCB with percent := some ⟨⟨210, 3⟩⟩ }, { sampleCB with percent := none, surcharge := none }])]
+      ⟨[], ⟨0, 2⟩, ⟨0, 2⟩⟩).categories.map (fun ct => ct.rates.map (fun rt => rt.base))) = [[⟨15000, 4⟩, ⟨5000, 4⟩]] ∧
+    CatsOk .precise 2 [] := by
+  refine ⟨by decide +kernel, fun _ h => by simp at h⟩
+
 
 end Src
 
